@@ -120,16 +120,18 @@ impl Key {
 '''
         open(p, "w").write(s)
         done.append("store.rs verif_index")
-    if insert(p, "        let index = SlabIndex(self.slab.insert(val) as u32);\n",
-              hook(8, "ev", "store.inserted",
-                   "self.slab[index.0 as usize].verif_serial, u32::from(id) as i64, index.0 as i64, self.slab.len() as i64"),
-              after=True, marker='"store.inserted", || {\n            vec![self.slab[index.0 as usize].verif_serial, u32::from(id)'):
-        done.append("store.rs Store::insert")
-    if insert(p, "        let index = SlabIndex(self.slab.insert(value) as u32);\n",
-              hook(8, "ev", "store.inserted",
-                   "self.slab[index.0 as usize].verif_serial, u32::from(stream_id) as i64, index.0 as i64, self.slab.len() as i64"),
-              after=True, marker="u32::from(stream_id) as i64, index.0 as i64"):
-        done.append("store.rs VacantEntry::insert")
+    if '"store.inserted"' not in open(p).read():
+        insert(p, "        let index = SlabIndex(self.slab.insert(val) as u32);\n",
+               hook(8, "ev", "store.inserted",
+                    "\n                self.slab[index.0 as usize].verif_serial,\n                u32::from(id) as i64,\n"
+                    "                index.0 as i64,\n                self.slab.len() as i64,\n            "),
+               after=True, marker="@@never@@")
+        insert(p, "        let index = SlabIndex(self.slab.insert(value) as u32);\n",
+               hook(8, "ev", "store.inserted",
+                    "\n                self.slab[index.0 as usize].verif_serial,\n                u32::from(stream_id) as i64,\n"
+                    "                index.0 as i64,\n                self.slab.len() as i64,\n            "),
+               after=True, marker="@@never@@")
+        done.append("store.rs Store::insert, VacantEntry::insert")
     if insert(p, "        // The stream must have been unlinked before this point\n",
               '        #[cfg(feature = "verif-hooks")]\n        crate::verif::ev("store.remove_at", || {\n'
               "            let mut v = self.verif_life(self.key.index.0 as i64);\n"
@@ -200,8 +202,7 @@ impl Key {
         s = s.replace(a, t)
         a = "    if stream.ref_count == 0 && stream.is_closed() {\n"
         assert s.count(a) == 1
-        t = a + ('        #[cfg(feature = "verif-hooks")]\n        crate::verif::ev("streams.wake_conn", || {\n'
-                 "            vec![actions.task.is_some() as i64]\n        });\n")
+        t = a + ('        #[cfg(feature = "verif-hooks")]\n        crate::verif::ev("streams.wake_conn", || vec![actions.task.is_some() as i64]);\n')
         s = s.replace(a, t)
         open(p, "w").write(s)
         done.append("streams.rs drop_stream_ref")
@@ -214,8 +215,7 @@ impl Key {
         s = s.replace(a, t)
         a = "            inner.refs -= 1;\n            if inner.refs == 1 {\n"
         assert s.count(a) == 1
-        t = ('            #[cfg(feature = "verif-hooks")]\n            crate::verif::ev("streams.drop", || {\n'
-             "                vec![inner.refs as i64]\n            });\n"
+        t = ('            #[cfg(feature = "verif-hooks")]\n            crate::verif::ev("streams.drop", || vec![inner.refs as i64]);\n'
              "            inner.refs -= 1;\n            if inner.refs == 1 {\n"
              '                #[cfg(feature = "verif-hooks")]\n                crate::verif::ev("streams.wake_conn", || {\n'
              "                    vec![inner.actions.task.is_some() as i64]\n                });\n")
